@@ -240,8 +240,23 @@ func (g *Gen) sequence(n *node, maxActors, maxMsgs int) {
 	n.attrs = append(n.attrs, "shape: sequence_diagram")
 	na := 1 + r.Intn(maxActors)
 	var actors []*node
+	// actor names that are prefixes of one another (user / userdb / "user gw"): the layout tells descendants from
+	// other actors by their IDs.  (A quoted name with a dot is left out on purpose: inside a group d2 does not
+	// resolve it to the actor, see finding C17-seq-dotted-actor-in-group; C17's harness keeps a fixed witness.)
+	var family []string
+	if r.Intn(3) == 0 {
+		b := g.fresh()
+		family = []string{b, b + "db", b + "dbx", b + "_z", b + "-0", "\"" + b + " gw\""}
+		r.Shuffle(len(family), func(i, j int) { family[i], family[j] = family[j], family[i] })
+	}
 	for i := 0; i < na; i++ {
-		a := n.add(&node{name: g.fresh()})
+		name := ""
+		if i < len(family) {
+			name = family[i]
+		} else {
+			name = g.fresh()
+		}
+		a := n.add(&node{name: name})
 		actors = append(actors, a)
 		switch r.Intn(8) {
 		case 0:
